@@ -79,11 +79,7 @@ theorem deltaW_nonneg (w : Nat) (p : Pattern) : 0 ≤ Spec.deltaW w p := by
       exact mul_self_nonneg _
     · exact Nat.cast_nonneg _
 
-theorem delta_nonneg (p : Pattern) : 0 ≤ delta p := by
-  rw [delta_eq_spec]; unfold Spec.delta
-  have := deltaW_nonneg 5 p
-  have := deltaW_nonneg 6 p
-  apply div_nonneg <;> linarith
+theorem delta_nonneg (p : Pattern) : 0 ≤ delta p := Cider.delta_nonneg p
 
 /-- K,R count as +1, D,E as −1, everything else as 0 in the published table -/
 theorem published_charge_classes :
